@@ -68,6 +68,9 @@ func RealRun(f Factory, init json.RawMessage, hist func(ev map[string]interface{
 }
 
 // RealMany runs n histories with seeded random programs.
+// ExtraReal, when set by a component's driver, runs after the histories of the real-goroutine stage
+var ExtraReal func()
+
 func RealMany(f Factory, gen InitGen, n int, seed int64, hist func(ev map[string]interface{})) {
 	rng := rand.New(rand.NewSource(seed))
 	for i := 0; i < n; i++ {
